@@ -22,7 +22,7 @@ func init() { sim.Register(c07{}) }
 
 func (c07) ID() string     { return "C07" }
 func (c07) Level() string  { return "exploration" }
-func (c07) QuickRuns() int { return 60000 }
+func (c07) QuickRuns() int { return 40000 }
 func (c07) Rule() string {
 	return "each evaluation is one straight-line emitter history (1-40 calls from the non-control-transfer method catalogue incl. every immediate method under right and wrong tracked widths, REP/SEP/AssumeREP/AssumeSEP with arbitrary masks, labels, comments, optional base) whose accepted bytes are then executed on cpu65c816 (bus.Bus + SimMem) and cpualt (closures + SimMem), with each mid-program Assume* injected into the CPU as an external flag change at that boundary; distinct = distinct scenario hash; non-trivial = at least one immediate method was refused for width or an Assume* occurred after the first instruction"
 }
@@ -119,8 +119,8 @@ func (c07) Gen(r *sim.Rand, tier string, run uint64) *sim.Scenario {
 	}
 	sc.Ops = ops
 	sc.Cfg["a"] = int64(r.Intn(6)) // initial accumulator: bounds MVN's repeat count
-	if r.Chance(1, 25) {
-		sc.Cfg["initfrom"] = 1
+	if r.Chance(1, 80) {
+		sc.Cfg["initfrom"] = int64(r.Range(1, 2))
 	}
 	if r.Chance(1, 10) {
 		sc.Cfg["cap"] = int64(r.Range(1, 40))
@@ -318,6 +318,9 @@ func (c07) Exec(sc *sim.Scenario, env *sim.Env) *sim.Violation {
 				mc = &Machine{CPU: cpuA{cp}, Mem: mem, busA: mc.busA}
 			} else {
 				cp := &cpualt.CPU{}
+				if sc.C("initfrom") == 2 {
+					cp.Init() // the receiver is a CPU that has been in use before (pooled working copy)
+				}
 				cp.InitFrom(mc.altB)
 				mc = &Machine{CPU: cpuB{cp}, Mem: mem, altB: cp}
 			}
